@@ -91,6 +91,26 @@ class Ctx:
         except CaseTimeout:
             self.inconclusive("watchdog fired after %ds in %s" % (timeout, getattr(fn, "__name__", fn)))
             return None
+        except (KeyboardInterrupt, SystemExit, MemoryError):
+            raise
+        except Exception as e:
+            # an exception nobody attributed (harness or code under test): this case is undecided, the shard goes on.
+            # Checks catch the exceptions of the code under test where they expect a result and report them as
+            # violations; what arrives here was not foreseen.
+            tb = traceback.extract_tb(e.__traceback__)
+            where = "; ".join("%s:%s:%d" % (os.path.basename(f.filename), f.name, f.lineno) for f in tb[-3:])
+            inside = [f for f in tb if (os.sep + "pymoca" + os.sep) in f.filename or f.filename.endswith(os.sep + "tools" + os.sep + "compiler.py")]
+            if inside and getattr(self, "prop", None):
+                # raised inside the code under test, at a place where the check expected a result
+                self.violation("%s:unexpected-exception:%s@%s:%s" % (self.prop, type(e).__name__, os.path.basename(inside[-1].filename), inside[-1].name),
+                               "the code under test raised %s: %s [%s] where the check expected a result" % (type(e).__name__, str(e)[:300], where),
+                               {"unattributed_exception": True})
+                return None
+            self.inconclusive("unattributed exception in %s: %s: %s [%s]" % (getattr(fn, "__name__", fn), type(e).__name__, str(e)[:200], where))
+            self.unattributed = getattr(self, "unattributed", 0) + 1
+            if self.unattributed > 50:
+                raise
+            return None
         finally:
             signal.alarm(0)
 
@@ -150,6 +170,7 @@ def main(argv):
         return 0
     modname, tier, seed, shard, nshards, budget, out = argv[:7]
     ctx = Ctx(tier, int(seed), int(shard), int(nshards), float(budget))
+    ctx.prop = modname.split("_")[0].upper()        # c18_expand_vectors -> C18
     mod = importlib.import_module("checks." + modname)
     if len(argv) > 7:
         with open(argv[7]) as f:
